@@ -451,6 +451,7 @@ FAMILIES = {"F9": fam_layout, "F8": fam_chars, "F7": fam_index, "F1": fam_shapes
 
 
 def shards(ctx):
+    import androguard.core.axml      # noqa: loaded once in the runner (never called there), inherited by the forked workers
     s = []
     nv = len(variants())
     for si in range(len(SHAPES)):
